@@ -7,6 +7,7 @@ import (
 	"fmt"
 	"os"
 	"path/filepath"
+	"sort"
 	"strings"
 
 	"github.com/awslabs/ar-go-tools/verifharness/core"
@@ -21,6 +22,7 @@ func main() {
 	ll := flag.Int("log", 1, "log level")
 	disk := flag.Bool("disk", false, "load through analysis.LoadProgram")
 	serve := flag.Bool("serve", false, "serve analysis requests (JSON lines on stdin/stdout)")
+	bt := flag.Bool("bt", false, "run the backtrace analysis (sink* = backtrace points) and print the lines on the traces")
 	step := flag.String("step", "", "run one step of the C07 analysis list (e.g. backtrace-eager) instead of taint")
 	flag.Parse()
 	if *serve {
@@ -35,6 +37,24 @@ func main() {
 		b, _ := os.ReadFile(m)
 		files[filepath.Base(m)] = string(b)
 		names = append(names, filepath.Base(m))
+	}
+	if *bt {
+		l, err := core.LoadSource(files)
+		if err != nil {
+			fmt.Println("load error:", err)
+			os.Exit(2)
+		}
+		out := core.RunBacktrace(core.MustConfig(core.BacktraceYAML(*od)), l)
+		for _, e := range out.Entries {
+			var ls []int
+			for k := range e.Lines {
+				ls = append(ls, k)
+			}
+			sort.Ints(ls)
+			fmt.Printf("entry: call line %d arg %d: %d traces, lines %v\n", e.SinkLine, e.ArgIndex, e.NTraces, ls)
+		}
+		fmt.Println("pairs: err", out.Err, "invalid", out.Invalid, "panic", out.Panic)
+		return
 	}
 	if *step != "" {
 		for _, r := range core.RunAllAnalyses(files, *step) {
